@@ -7,6 +7,13 @@ def build(t):
     k = t[0]
     if k == "c":
         return E.ConstantExpression(t[1])
+    if k == "pc":
+        # a user-defined literal: a ConstantExpression subclass whose evaluate() gives value / 100 (evaluation is polymorphic:
+        # whatever node sits in an operand position is asked for ITS value)
+        class Percent(E.ConstantExpression):
+            def evaluate(self, context=None):
+                return self.value / 100
+        return Percent(t[1])
     if k == "v":
         return E.VariableExpression(t[1])
     if k == "neg":
